@@ -76,9 +76,12 @@ MisSpelled == {"declLower", "declMixed"}
 Methods    == {"GET", "POST", "PUT", "DELETE"} \cup MisSpelled
 Mutating   == {"POST", "PUT", "DELETE"}             \* control.go modifiesData
 CTypes    == {"none", "json", "form"}
-\* How a body is framed: no body, a body announced by Content-Length, a body of
-\* unknown length (Transfer-Encoding: chunked; the server sees length -1).
-Bodies    == {"none", "length", "chunked"}
+\* How a body is framed: no body; a body announced by Content-Length; a body of
+\* unknown length sent with Transfer-Encoding: chunked (HTTP/1.1: the server
+\* sees length -1 and the transfer encoding); a streamed body of unknown length
+\* without any transfer encoding (HTTP/2, h2c, HTTP/3: length -1, nothing
+\* else).  A body is a body in every framing.
+Bodies    == {"none", "length", "chunked", "stream"}
 Cookies   == {"none", "tX"} \cup Tokens
 Basics    == {"none", "wrong", "right"}
 Spellings == {"canonical", "trailingSlash", "dotSegment", "doubleSlash"}
@@ -254,7 +257,7 @@ Bad(q, o) == {n \in {"NoUnauthenticatedHandler", "MutatingNeedsMethodAndJSON",
 \* and body are not varied; mis-spelled method tokens are sent to the canonical
 \* path only.
 Shape(q) == /\ q.spelling \in {"dotSegment", "doubleSlash"} => q.ctype = "none" /\ q.body = "none"
-            /\ q.body = "chunked" => q.spelling = "canonical"
+            /\ q.body \in {"chunked", "stream"} => q.spelling = "canonical"
             /\ q.method \in MisSpelled => q.spelling = "canonical"   \* one dimension at a time
 Requests == {q \in [method : Methods, ctype : CTypes, body : Bodies, cookie : Cookies,
                     basic : Basics, spelling : Spellings] : Shape(q)}
